@@ -299,6 +299,41 @@ pub fn run_salt(scn: &Scenario, ctx: &mut Ctx) {
                 if digest_of(&s1) == digest_of(&s2) {
                     ctx.violate("C17.decorrelate", "two independent salted adds of the same assertion have the same digest".to_string());
                 }
+                // the envelope form: the assertion being added already carries an assertion of its own, or is obscured
+                let variant = st.arg(3) % 3;
+                let pre: Envelope = match variant {
+                    0 => plain.add_assertion("since", (st.arg(3) % 50) as u32),
+                    1 => plain.elide(),
+                    _ => plain.clone(),
+                };
+                let own_before = pre.assertions().len();
+                match guarded(|| doc.add_assertion_envelope_salted(pre.clone(), true)) {
+                    Ok(Ok(t1)) => {
+                        ctx.checked();
+                        let added = new_assertions(&doc, &t1);
+                        if added.len() != 1 {
+                            ctx.violate("C17.placement", format!("add_assertion_envelope_salted added {} assertions", added.len()));
+                        } else {
+                            let a = &added[0];
+                            if !ident(&a.subject(), &pre.subject()) {
+                                ctx.violate("C17.placement", "the salted assertion's subject is not the assertion that was added".to_string());
+                            }
+                            let own = a.assertions();
+                            let salts = own.iter().filter(|x| x.as_predicate().map(|pp| digest_of(&pp) == salt_digest()).unwrap_or(false)).count();
+                            if own.len() != own_before + 1 || salts != 1 {
+                                ctx.violate("C17.placement", format!("an assertion (variant {}) added as salted carries {} assertions of its own ({} salt); expected {} with exactly one salt", variant, own.len(), salts, own_before + 1));
+                            }
+                        }
+                        if let Ok(Ok(t2)) = guarded(|| doc.add_assertion_envelope_salted(pre.clone(), true)) {
+                            if digest_of(&t1) == digest_of(&t2) {
+                                ctx.violate("C17.decorrelate", format!("two independent salted adds of the same assertion envelope (variant {}) have the same digest", variant));
+                            }
+                        }
+                        ctx.probe("salted-assertion-envelope");
+                    }
+                    Ok(Err(e)) => ctx.violate("C17.placement", format!("add_assertion_envelope_salted refused an assertion envelope: {}", e)),
+                    Err(pn) => ctx.violate_sig("C16.no-panic", format!("add_assertion_envelope_salted panicked: {}", pn), pn),
+                }
                 ctx.probe("salted-assertion");
                 ctx.t("Z.Salted");
             }
@@ -331,7 +366,7 @@ pub fn generate_salt(property: &str, r: &mut SimRng, seed: u64) -> Scenario {
             4 => scn.push("Z.Extreme", &[ds(r), r.next(), 0, 0, pad]),
             5..=6 => scn.push("Z.WithLen", &[ds(r), r.below(24), 0, 0, pad.min(300)]),
             7 => scn.push("Z.InRange", &[ds(r), r.below(20), r.below(40), 0, pad.min(300)]),
-            _ => scn.push("Z.Salted", &[ds(r), ds(r), ds(r), 0, pad.min(300)]),
+            _ => scn.push("Z.Salted", &[ds(r), ds(r), ds(r), r.below(300), pad.min(300)]),
         }
     }
     scn
@@ -821,7 +856,11 @@ pub fn run_attach(scn: &Scenario, ctx: &mut Ctx) {
                     }
                     let a = atts[(st.arg(2) % atts.len() as u64) as usize].clone();
                     let obj = a.as_object().unwrap();
-                    let bad_obj = match st.arg(3) % 5 {
+                    let bad_obj = match st.arg(3) % 6 {
+                        5 => {
+                            ctx.fault("cbor.struct.extra-assertion-on-attachment");
+                            obj.add_assertion("unexpected", 1)
+                        }
                         0 => {
                             ctx.fault("cbor.struct.vendor-removed");
                             match obj.assertion_with_predicate(known_values::VENDOR) {
@@ -878,6 +917,18 @@ pub fn run_attach(scn: &Scenario, ctx: &mut Ctx) {
                         Ok(Ok(_)) => ctx.violate("C19.invalid", format!("a malformed attachment assertion (case {}) was not reported invalid", st.arg(3) % 5)),
                         Ok(Err(_)) => ctx.probe("malformed-attachment-rejected"),
                         Err(p) => ctx.violate_sig("C16.no-panic", format!("attachments() panicked on a malformed attachment: {}", p), p),
+                    }
+                    // ... whatever filter is given (including filters that would not select the malformed one)
+                    for vf in 0..4usize {
+                        for cf in [None, Some("https://example.com/v1"), Some("https://nobody")] {
+                            ctx.checked();
+                            if let Ok(Ok(_)) = guarded(|| bad.attachments_with_vendor_and_conforms_to(Some(VENDORS[vf]), cf)) {
+                                ctx.violate("C19.invalid", format!("a malformed attachment assertion (case {}) was not reported invalid under the filter vendor={} conformsTo={:?}", st.arg(3) % 5, VENDORS[vf], cf));
+                            }
+                            if let Ok(Ok(_)) = guarded(|| bad.attachment_with_vendor_and_conforms_to(Some(VENDORS[vf]), cf)) {
+                                ctx.violate("C19.invalid", format!("the single-result query ignored a malformed attachment assertion (case {}) under the filter vendor={} conformsTo={:?}", st.arg(3) % 5, VENDORS[vf], cf));
+                            }
+                        }
                     }
                     ctx.t("A.Malformed");
                     continue;
@@ -966,6 +1017,25 @@ pub fn run_attach(scn: &Scenario, ctx: &mut Ctx) {
                         ctx.violate("C19.types", format!("type #{} added={} but has_type={} check_type ok={}", b, added, has, chk));
                     }
                 }
+                // a type that is itself an envelope with assertions: reported exactly, and its bare subject is not
+                if st.arg(3) % 2 == 0 {
+                    let node_type = Envelope::new(names[(st.arg(2) % 2) as usize]).add_assertion("version", (st.arg(2) % 9) as u32);
+                    let bare = node_type.subject();
+                    let bare_added = mask & (1 << (4 + (st.arg(2) % 2))) != 0;
+                    if let Some(rx2) = transmit(ctx, &rx.add_type(node_type.clone())) {
+                        ctx.checked();
+                        ctx.probe("node-shaped-type");
+                        if !rx2.has_type_envelope(node_type.clone()) || rx2.check_type_envelope(node_type.clone()).is_err() {
+                            ctx.violate("C19.types", "a type that is an envelope with its own assertions was added but is not reported".to_string());
+                        }
+                        if rx2.has_type_envelope(bare.clone()) != bare_added {
+                            ctx.violate("C19.types", format!("the bare subject of a node-shaped type is reported as a type: {} (it was added: {})", rx2.has_type_envelope(bare.clone()), bare_added));
+                        }
+                        if rx2.types().len() != mask.count_ones() as usize + 1 {
+                            ctx.violate("C19.types", "types() does not count a node-shaped type once".to_string());
+                        }
+                    }
+                }
                 // "Seed" the string is not 'Seed' the known value
                 let n = mask.count_ones() as usize;
                 if rx.types().len() != n {
@@ -993,7 +1063,7 @@ pub fn generate_attach(property: &str, r: &mut SimRng, seed: u64) -> Scenario {
     let n = r.range(1, 3);
     for _ in 0..n {
         let op = *r.pick(&["A.Attach", "A.Attach", "A.Malformed", "A.Types"]);
-        scn.push(op, &[ds(r), r.next(), r.next() % 4096, r.below(5)]);
+        scn.push(op, &[ds(r), r.next(), r.next() % 4096, r.below(6)]);
     }
     scn
 }
